@@ -81,7 +81,7 @@ var msgs = []interface{}{
 }
 
 type bias struct {
-	fail, perm, emit, bad, loop, native, nilbs, guard float64
+	fail, perm, emit, bad, loop, native, nilbs, guard, typed float64
 }
 
 func p(x float64) bool { return rng.Float64() < x }
@@ -103,6 +103,8 @@ func genOps(b bias, guard bool) []mach.Op {
 			ops = append(ops, mach.Op{Name: "emitb", K: pickS(bkeys)})
 		case r < 0.70+b.emit:
 			ops = append(ops, mach.Op{Name: "delall"})
+		case r < 0.78+b.emit:
+			ops = append(ops, mach.Op{Name: "mutnested", K: pickS(bkeys)})
 		}
 	}
 	// terminal behaviour
@@ -191,6 +193,19 @@ func genBs(b bias) match.Bindings {
 	if p(b.perm) {
 		bs["p!"] = pick(vals)
 	}
+	if p(b.typed) {
+		// values as a Go host might build them natively: typed containers, and nothing generic beside them
+		bs = match.Bindings{}
+		if p(0.6) {
+			bs[pickS([]string{"k", "xs", "t"})] = []string{"new", "urgent"}
+		}
+		if p(0.6) {
+			bs["j"] = map[string]string{"a": "b"}
+		}
+		if p(0.3) {
+			bs["?x"] = "a"
+		}
+	}
 	return bs
 }
 
@@ -255,6 +270,18 @@ func sameMap(a, b match.Bindings) bool {
 func qvals(bs match.Bindings) bool {
 	for _, v := range bs {
 		if hasQ(v) {
+			return true
+		}
+	}
+	return false
+}
+
+// hasTyped: a binding holds a typed Go container (as a Go host might build natively).  The matcher
+// is defined on generic JSON values, so such states are judged for the frame conditions only.
+func hasTyped(bs match.Bindings) bool {
+	for _, v := range bs {
+		switch v.(type) {
+		case []string, map[string]string:
 			return true
 		}
 	}
@@ -353,7 +380,7 @@ func stepCase(id int, kind string, in stepIn) O {
 	}
 
 	rec := O{"id": id, "kind": kind, "render": map[bool]string{true: "native", false: "js"}[in.a.Nodes["n0"] != nil && in.a.Nodes["n0"].Native],
-		"spec": mach.EncSpec(in.a), "st": mach.EncState(st), "nilbs": in.bs == nil, "q": qvals(in.bs),
+		"spec": mach.EncSpec(in.a), "st": mach.EncState(st), "nilbs": in.bs == nil, "q": qvals(in.bs) || hasTyped(in.bs),
 		"perm": mach.PermNames(in.a, in.bs), "pending": pendEnc, "nilctl": in.nilCtl,
 		"raw": enc.Canon(O{"spec": in.a, "node": in.node, "bs": in.bs, "pending": in.pending, "nilctl": in.nilCtl, "props": in.props})}
 	specBefore := mach.SpecSnapshot(spec)
@@ -679,6 +706,21 @@ func genPersist(id int) O {
 			a.Nodes["n1"].Act = append(a.Nodes["n1"].Act, mach.Op{Name: "throw"})
 			a.AEN = "n2"
 		}
+		if p(0.25) {
+			// an inequality variable whose bound an action computed; a later message is compared with it
+			ineq := pickS([]string{"?<lim", "?<=lim", "?>lim", "?>=lim", "?!=lim"})
+			bound := pick([]interface{}{float64(5), float64(3), 2.5, float64(0)})
+			a = &mach.ASpec{Nodes: map[string]*mach.ANode{
+				"n0": {BType: "message", Branches: []mach.ABranch{{Target: "n1"}}},
+				"n1": {Act: []mach.Op{{Name: "set", K: ineq, V: bound}}, BType: "bindings", Branches: []mach.ABranch{{Target: "n2"}}},
+				"n2": {BType: "message", Branches: []mach.ABranch{{HasPat: true, Pat: map[string]interface{}{"n": ineq}, Target: "n4"}, {Target: "n2"}}},
+				"n4": {Act: []mach.Op{{Name: "emitb", K: "?lim"}, {Name: "del", K: "?lim"}}, BType: "bindings", Branches: []mach.ABranch{{Target: "n2"}}},
+			}}
+			ms = []interface{}{pick(msgs)}
+			for i := 0; i < 3; i++ {
+				ms = append(ms, map[string]interface{}{"n": pick([]interface{}{float64(3), float64(5), float64(7), 2.5, float64(0)})})
+			}
+		}
 		for len(ms) < 3 {
 			ms = append(ms, pick(msgs))
 		}
@@ -706,7 +748,7 @@ func max(a, b int) int {
 
 var biases = map[string]bias{
 	"step":  {fail: 0.25, perm: 0.15, emit: 0, bad: 0.03, loop: 0.0, native: 0.3, nilbs: 0, guard: 0.35},
-	"frame": {fail: 0.5, perm: 0.15, emit: 0, bad: 0.05, loop: 0.0, native: 0.3, nilbs: 0, guard: 0.4},
+	"frame": {fail: 0.5, perm: 0.15, emit: 0, bad: 0.05, loop: 0.0, native: 0.3, nilbs: 0, guard: 0.4, typed: 0.2},
 	"total": {fail: 0.6, perm: 0.4, emit: 0, bad: 0.1, loop: 0.03, native: 0.4, nilbs: 0.15, guard: 0.5},
 	"emit":  {fail: 0.6, perm: 0.05, emit: 0.2, bad: 0.02, loop: 0.02, native: 0.0, nilbs: 0, guard: 0.4},
 	"perm":  {fail: 0.4, perm: 0.8, emit: 0, bad: 0.0, loop: 0.0, native: 0.5, nilbs: 0, guard: 0.5},
@@ -744,6 +786,33 @@ func main() {
 				out.write(genStep(id, mode, b))
 			}
 		}
+	case "univ":
+		// step cases enumerated by TLC (spec/MC_Step.tla)
+		in, err := os.Open(os.Args[2])
+		check(err)
+		out := newOut(os.Args[3])
+		defer out.close()
+		sc := bufio.NewScanner(in)
+		sc.Buffer(make([]byte, 1<<20), 1<<26)
+		id := 0
+		for sc.Scan() {
+			var c struct {
+				Node    map[string]interface{}
+				Aeb     bool
+				Aen     string
+				Bs      interface{}
+				Pending interface{}
+			}
+			check(json.Unmarshal(sc.Bytes(), &c))
+			id++
+			a := &mach.ASpec{Nodes: map[string]*mach.ANode{"n0": mach.DecNode(c.Node), "n1": {NoBr: true}}, AEB: c.Aeb, AEN: c.Aen}
+			in := stepIn{a: a, node: "n0", bs: enc.DBs(c.Bs)}
+			if p, is := c.Pending.([]interface{}); is && p[0] != "nomsg" {
+				in.pending = enc.D(p)
+			}
+			out.write(stepCase(id, "univ", in))
+		}
+		check(sc.Err())
 	case "replay":
 		js, err := os.ReadFile(os.Args[2])
 		check(err)
